@@ -283,6 +283,19 @@ func runC17(t *testing.T, spec RunSpec) *Verdict {
 		return v
 	}
 	env := newVMEnv(prog, generousLimits)
+	anyCore := false
+	if pf := spec.F("print_fail_at", 0); pf > 0 {
+		// fault: the host's n-th write fails; the printing core dies with a host error,
+		// Wait reports it and cancels the rest
+		env.out.FailAt = pf
+		m.fatal = true
+		anyCore = true
+		m.badKinds = map[string]bool{"fatal:HostError": true}
+		m.prefixOK = map[string]bool{}
+		for l := range m.lines {
+			m.prefixOK[l] = true
+		}
+	}
 	var got outcome
 	var atReturn []string
 	returned := false
@@ -321,6 +334,9 @@ func runC17(t *testing.T, spec RunSpec) *Verdict {
 		return v
 	}
 	final := env.out.Lines()
+	if pf := spec.F("print_fail_at", 0); pf > 0 && env.out.Writes < pf {
+		m.fatal = false // the program printed fewer lines than the fault index: an ordinary run
+	}
 	if !m.fatal {
 		if got.Kind != "completed" {
 			v.fail(P, "wrong-result", "wait-result", "shape"+fmt.Sprint(spec.P("shape", 0))+":"+got.Kind, fmt.Sprintf("Wait returned %s (%s) for a program whose cores all complete", got.Kind, firstLine(got.Msg)))
@@ -351,7 +367,7 @@ func runC17(t *testing.T, spec RunSpec) *Verdict {
 			return v
 		}
 		// ... with that core's number: workers are spawned by main in order, so worker i is core 2+i
-		if !m.badCores[got.CoreNum] {
+		if !anyCore && !m.badCores[got.CoreNum] {
 			v.fail(P, "wrong-result", "wait-result-core", "fatal:core", fmt.Sprintf("Wait reported the interrupt for core %d, but only cores %v fail", got.CoreNum, coreList(m.badCores)))
 			return v
 		}
@@ -454,6 +470,17 @@ func planC17(t *testing.T, tier string, seed uint64) ([]RunSpec, error) {
 				}
 			}
 		}
+	}
+	// host print errors in the middle of a fan-out
+	npf := 120
+	if !quick(tier) {
+		npf = 6000
+	}
+	for k := 0; k < npf; k++ {
+		s := RunSpec{Property: "C17", Workload: "c17/print-fault", Params: map[string]int{"shape": []int{0, 4, 5}[k%3], "n": 2 + k%4, "iters": 2, "main_late": k % 3}, Fault: map[string]int{"print_fail_at": 1 + k%7}}
+		s.Sim = swarm(seed, 700000+k)
+		s.Seed = runSeed(seed, 700000+k)
+		plan = append(plan, s)
 	}
 	// clause (e): free-mode runs under the race detector
 	nfree := 48
